@@ -48,6 +48,15 @@ CLAIMED = {
  "C06": dict(technique="typestate (must-fact) analysis with callee transformers and effect summaries over every graph-updating operator",
              text="Decides that after receivers change, donors, bottom-up and breadth-first orders are rebuilt in dependency order before every exit and before being read, and that multi-direction routers use the Kahn order, for all 7 grid instantiations. Correctness of the traversal algorithms on arbitrary graphs is not decided.",
              ref="§5 C06"),
+ "C03": dict(technique="exhaustive interpretation of accumulate over an exact symbolic domain (free polynomials over source/area/weight symbols) on all small flow graphs; must-kill analysis of the output array; overload delegation rule",
+             text="Decides that accumulate computes the upstream-integral recurrence exactly (symbolically) on every flow graph of <= 3/4 nodes with array and scalar sources, that the output array is reset on every path before accumulation, and that all public overloads reach the same implementation. Floating-point rounding and the weights-sum-to-one precondition (C05/C04) are not decided here.",
+             ref="§5 C03"),
+ "C12": dict(technique="interval interpretation of the exponent validation; must-kill analysis of erode's persistent members; abstract interpretation of the per-node sweep body (order representatives + opaque numerics, forking on undetermined comparisons)",
+             text="Decides the rejection rule for exponents != 1 on multi-direction graphs, the per-step reset of erosion/counter, and the control structure that guarantees zero erosion at outlets/pits/lake nodes, the minimality of the lake level and the clamp of the new elevation at the lake level on every path. Non-negativity beyond rounding and all numerics are not decided.",
+             ref="§5 C12"),
+ "C19": dict(technique="exhaustive abstract interpretation (flag domain) of compute_basins/pits over all short bottom-up sequences; must-kill analysis; must-precede freshness rule",
+             text="Decides the labelling case analysis (masked -> reserved label, roots -> consecutive new labels + outlets, others -> current label), pits = non-base outlets, list resets, and that library-internal readers recompute basins first. 'Same label as its receiver' on arbitrary graphs depends on the bottom-up order property and is not decided.",
+             ref="§5 C19"),
 }
 NA = {}
 DEFAULT_NA = "check not implemented yet (framework under construction)"
